@@ -30,6 +30,7 @@ func runC03(c *core.Ctx) {
 	c.Rule("C03.roles", "A7: WindowNode.newWindow passes (Period, Every, AlignFlag, FillPeriodFlag) resp. (PeriodCount, EveryCount, FillPeriodFlag) to the constructor parameters of the same role")
 	c.Rule("C03.confine", "A6: windowTimeBuffer.{window,start,stop,size} are assigned only in insert and purge; windowByCount.{buf,start,stop,size,count,nextEmit} only in its Point (and the constructor literal); both points() build their result with make (a fresh slice)")
 	c.Rule("C03.grow", "A3: when the time ring grows while wrapped, the older segment window[start:] is copied to the front of the new array and the newer segment window[:stop] behind it (time order is what purge relies on)")
+	c.Rule("C03.copyout", "A4 ownership: the slice of points handed to an emitted window (windowByCount.points, windowTimeBuffer.points) is a fresh make(…) on every path that returns points, never a sub-slice of the ring: the ring is overwritten by later points while the emitted batch may still be read downstream")
 	c.Rule("C03.count", "A1: windowByCount.Point stores the point at stop, advances stop modulo period, drops the oldest (advances start) iff the ring was full else grows size, counts the point, and emits iff count == nextEmit, advancing nextEmit by every exactly then")
 
 	root := c.P.Pkg("")
@@ -43,6 +44,7 @@ func runC03(c *core.Ctx) {
 	c03Confine(c, root)
 	c03Grow(c, root)
 	c03Count(c, root)
+	c03CopyOut(c, root)
 }
 
 func c03Skeleton(c *core.Ctx, root *packages.Package) {
@@ -449,4 +451,35 @@ func c03Count(c *core.Ctx, root *packages.Package) {
 			}
 			return s
 		}})
+}
+
+func c03CopyOut(c *core.Ctx, root *packages.Package) {
+	for _, recv := range []string{"windowByCount", "windowTimeBuffer"} {
+		fn := c.Need("C03.copyout", "", recv, "points")
+		if fn == nil {
+			continue
+		}
+		eng := &an.Engine{Prog: c.P}
+		paths, err := eng.Run(fn)
+		if err != nil {
+			c.Undecided("C03.copyout", recv+".points", fn.Decl.Pos(), "%v", err)
+			continue
+		}
+		good, n := len(paths) > 0, 0
+		for _, p := range paths {
+			if len(p.Rets) != 1 || p.Rets[0] == "nil" {
+				continue
+			}
+			n++
+			if !strings.HasPrefix(p.Rets[0], "make(") {
+				good = false
+				c.Fail("C03.copyout", recv+".points#fresh", p.RetPos, "on path [%s] the window's points are %s, not a freshly made slice: the emitted batch shares memory with the ring and is overwritten by later points while a slower consumer still reads it", p.Cond(), shortKey(p.Rets[0]))
+			}
+		}
+		if good && n > 0 {
+			c.Ok("C03.copyout", recv+".points")
+		} else if good {
+			c.Fail("C03.copyout", recv+".points", fn.Decl.Pos(), "no path returns points")
+		}
+	}
 }
